@@ -603,6 +603,8 @@ def run(prop, tier, replay=None):
             scripts += [x for x in c08_boundary(L, rnd, tier) if prop == "C08" or x.sid.startswith("C08-s")]
         if prop == "C13":
             scripts += c13_boundary(L, rnd, tier)
+        if prop == "C14":
+            scripts += [x for x in c13_boundary(L, rnd, tier) if x.sid.startswith("C13-g")]
         if prop == "C07":
             scripts += c07_boundary(L, rnd, tier)
         if prop == "C19":
@@ -850,6 +852,24 @@ def c13_boundary(L, rnd, tier):
                 k1 = rnd.choice(L.bylen[ln]); k2 = rnd.choice(L.bylen[rnd.choice(lens)])
                 sc.asm(1, [k1, k2], [L.text[k1], L.text[k2]], twin=True)
                 out.append(sc)
+    # large chunk sizes (the chunk size is a size_t on the instance and an int on the counting entry point): padding and counting
+    # right at the first and second chunk end
+    for c in (100, 255, 256, 257, 1000, 4096, 32767, 32768, 65535, 65536, 65537, 100000):
+        for ln in (2, 7, 10, 13):
+            if not L.bylen.get(ln):
+                continue
+            for free in (1, ln - 1, ln):
+                for mult in (1, 2):
+                    pos = mult * c - free
+                    k1 = rnd.choice(L.bylen[ln]); k2 = rnd.choice(L.bylen[3])
+                    for mode in ("fit", "count"):
+                        sc = Script("C13-g%d" % n); n += 1
+                        sc.create(1, "ext", pos + 200)
+                        if mode == "fit":
+                            sc.chunk(1, c)
+                        sc.offset(1, pos)
+                        sc.asm(1, [k2, k1, k2], [L.text[k2], L.text[k1], L.text[k2]], count=(c if mode == "count" else None), twin=True)
+                        out.append(sc)
     return out
 
 
@@ -872,6 +892,20 @@ def c07_boundary(L, rnd, tier):
                     k1 = L.bylen[ln][n % len(L.bylen[ln])]
                     sc.asm(1, [k1], [L.text[k1]])
                     out.append(sc)
+    # every small caller buffer (real sizes, not the scaled ones of the model): 0 .. 45 bytes, three modes, two calls
+    for cap in range(0, 46):
+        for ln in (1, 3, 13):
+            if not L.bylen.get(ln):
+                continue
+            for mode in ("plain", "fit", "count"):
+                sc = Script("C07-s%d" % n); n += 1
+                sc.create(1, "ext", cap)
+                if mode == "fit":
+                    sc.chunk(1, 8)
+                k1 = L.bylen[ln][n % len(L.bylen[ln])]; k2 = L.bylen[3][0]
+                sc.asm(1, [k1, k2], [L.text[k1], L.text[k2]], count=(8 if mode == "count" else None))
+                sc.asm(1, [k2], [L.text[k2]])
+                out.append(sc)
     return out
 
 
